@@ -51,8 +51,20 @@ NEEDS_MODEL = True
 def jobs(tier, seed):
     J = []
     thorough = tier == 'thorough'
-    J.append(Job('grouping', 'harness.c14', 'h_grouping', {'max_len': 6 if thorough else 5, 'max_depth': 4 if thorough else 3},
-                 timeout=7000 if thorough else 900, witnesses=['grouped-0', 'grouped-1', 'grouped-2']))
+    max_len = 6 if thorough else 5
+    # one exploration, split into parallel jobs by the list length and (for the longest lists) the kind of the first item
+    for L in range(1, max_len + 1):
+        splits = [None] if L < max_len - 1 else list(range(5))
+        for k0 in splits:
+            fixed = {'length': L - 1}
+            if k0 is not None:
+                fixed['d.k0'] = k0
+            wit = ['grouped-0'] if (L == 1 or (k0 is not None and k0 < 4)) else ['grouped-1']
+            if L >= 3 and k0 is None:
+                wit = ['grouped-0', 'grouped-1']
+            J.append(Job('grouping:len=%d%s' % (L, '' if k0 is None else ',first-kind=%d' % k0), 'harness.c14', 'h_grouping',
+                         {'max_len': max_len, 'max_depth': 4 if thorough else 3, 'fixed_choices': fixed},
+                         timeout=7000 if thorough else 900, witnesses=wit))
     J.append(Job('unknown-descriptor', 'harness.c14', 'h_unknown', {}, timeout=900, witnesses=['refused', 'not-reached']))
     J.append(Job('table-selection', 'harness.c14', 'h_selection', {}, timeout=900, witnesses=['selected', 'selected-local']))
     J.append(Job('canary:nested-count', 'harness.c14', 'h_grouping', {'max_len': 4}, timeout=600, max_cex=1,
